@@ -61,7 +61,8 @@ impl<'bundle> WriteValue<'bundle> for ast::InlineExpression<&'bundle str> {
             } => {
                 let (_, resolved_named_args) = scope.get_arguments(arguments.as_ref());
 
-                scope.local_args = Some(resolved_named_args);
+                // the caller's own term arguments are back in force when this call returns
+                let outer_args = scope.local_args.replace(resolved_named_args);
                 let result = scope
                     .bundle
                     .get_entry_term(id.name)
@@ -79,7 +80,7 @@ impl<'bundle> WriteValue<'bundle> for ast::InlineExpression<&'bundle str> {
                         }
                     })
                     .unwrap_or_else(|| scope.write_ref_error(w, self));
-                scope.local_args = None;
+                scope.local_args = outer_args;
                 result
             }
             Self::FunctionReference { id, arguments } => {
